@@ -1936,9 +1936,15 @@ func (t *Topic) anotherUserSub(sess *Session, asUid, target types.Uid, asChan bo
 		}
 
 		if modeGiven == types.ModeUnset {
-			// Request to use default access mode for the new subscriptions.
-			// Assuming LevelAuth. Approver should use non-default access if that is not suitable.
-			modeGiven = t.accessFor(auth.LevelAuth)
+			if t.cat == types.TopicCatP2P {
+				// P2P topics have no default access: re-inviting the other user restores
+				// the mode given to the user previously.
+				modeGiven = (userData.modeGiven & types.ModeCP2P) | types.ModeApprove
+			} else {
+				// Request to use default access mode for the new subscriptions.
+				// Assuming LevelAuth. Approver should use non-default access if that is not suitable.
+				modeGiven = t.accessFor(auth.LevelAuth)
+			}
 			// Enable new subscription even if default is no joiner.
 			modeGiven |= types.ModeJoin
 		}
@@ -1995,6 +2001,13 @@ func (t *Topic) anotherUserSub(sess *Session, asUid, target types.Uid, asChan bo
 			modeGiven: sub.ModeGiven,
 			modeWant:  sub.ModeWant,
 			private:   nil,
+			// P2P only: the other user's subscription was deleted and is being restored,
+			// keep the cached user data and the name of the topic as seen by the user.
+			public:    userData.public,
+			trusted:   userData.trusted,
+			lastSeen:  userData.lastSeen,
+			lastUA:    userData.lastUA,
+			topicName: userData.topicName,
 		}
 		t.perUser[target] = userData
 		t.computePerUserAcsUnion()
